@@ -357,6 +357,59 @@ def lean_stmt(st):
     return f"TStmt.{st[0]} {lean_clause(st[1])}"
 
 
+PROBE = r"""
+import json, re, sys
+sys.path.insert(0, sys.argv[1])
+calls = []
+def wrap(name):
+    orig = getattr(re, name)
+    def f(pattern, string, flags=0, *a, **k):
+        if CUR[0] is not None:
+            calls.append([CUR[0], name, pattern if isinstance(pattern, str) else pattern.pattern, int(flags)])
+        return orig(pattern, string, flags, *a, **k)
+    setattr(re, name, f)
+CUR = [None]
+for n in ("findall", "search"):
+    wrap(n)
+import circuitgraph as cg
+from circuitgraph import io as cgio
+from circuitgraph.parsing import fast_verilog
+def run(tag, fn):
+    CUR[0] = tag
+    try:
+        fn()
+    except Exception as e:
+        pass
+    CUR[0] = None
+run("bench", lambda: cgio.bench_to_circuit("INPUT(a)\nOUTPUT(o)\no = NOT(a)\n", "m"))
+run("fast", lambda: fast_verilog.fast_parse_verilog_netlist("module m (a, o);\n input a;\n output o;\n ff u (.d(a), .q(o));\n not g (o, a);\n assign o = a;\nendmodule\n", [cg.BlackBox("ff", ["d"], ["q"])]))
+run("module", lambda: cgio.verilog_to_circuit("module NAME (a);\n input a;\nendmodule\n", "NAME"))
+print(json.dumps(calls))
+"""
+
+
+def capture_regexes():
+    """the regular expressions exactly as the `re` module receives them (needs the repo's runtime: /venv/bin/python)"""
+    import subprocess
+    py = "/venv/bin/python" if os.path.exists("/venv/bin/python") else sys.executable
+    try:
+        p = subprocess.run([py, "-c", PROBE, REPO], stdout=subprocess.PIPE, stderr=subprocess.PIPE, text=True, timeout=120)
+        if p.returncode != 0:
+            return None
+        calls = json.loads(p.stdout.strip().splitlines()[-1])
+    except Exception:  # noqa: BLE001
+        return None
+    out = {}
+    for tag, api, pat, flags in calls:
+        lst = out.setdefault(tag, [])
+        entry = (api, pat, bool(flags & 16))
+        if tag == "module" and "module" not in pat:
+            continue   # lark's own use of re while parsing
+        if entry not in lst:
+            lst.append(entry)
+    return out
+
+
 def main():
     status = {}
     out = []
@@ -442,6 +495,18 @@ def main():
         out.append("  xorClauses := " + llist(xor[1], lean_clause) + ",")
         out.append("  xorDirect := " + llist(xor[2]) + ",")
         out.append("  invClauses := " + llist(xor[3], lean_clause) + " }")
+
+    # ---- regular expressions of the readers, as `re` receives them
+    rx = capture_regexes()
+    for tag, n in (("bench", 4), ("fast", 7), ("module", 1)):
+        lst = rx.get(tag) if rx else None
+        ok = lst is not None and len(lst) == n
+        status["regex_" + tag] = "ok" if ok else "lost"
+        if ok:
+            out.append(f"def regex_{tag} : Option (List (String × String × Bool)) := some " +
+                       llist(lst, lambda e: f"({lstr(e[0])}, {lstr(e[1])}, {'true' if e[2] else 'false'})"))
+        else:
+            out.append(f"def regex_{tag} : Option (List (String × String × Bool)) := none")
 
     out.append("")
     out.append("end CG.Generated")
